@@ -5,6 +5,7 @@ import XsdataModel.Bind.Parse
 import XsdataModel.Proofs.SamplesComponents
 import XsdataModel.Proofs.SamplesClasses
 import XsdataModel.Proofs.SamplesMapNodup
+import XsdataModel.Proofs.SamplesFields
 
 namespace Props.C13
 open Py Xs.Samples
@@ -109,6 +110,53 @@ theorem json_samples_admitted (e : SEnv) (docs : List (List (Str × JVal))) (nam
   obtain ⟨cs, hcs, hccs⟩ := hc
   obtain ⟨d, _, hd⟩ := mapM_option_mem _ docs css h cs hcs
   exact mapDict_nodup e d name cs hd c hccs
+
+/-! ### down to the fields of the generated dataclasses -/
+
+/-- **xml_fields_admit_samples.** For any XML documents: run the mappers, `reduce_classes` and the
+ClassAnalyzer handlers that touch occurrences of sample classes (`CalculateAttributePaths`,
+`ProcessAttributeTypes`, `ResetAttributeSequences`, `SanitizeAttributesDefaultValue`,
+`ResetAttributeSequenceNumbers`) and look at the dataclass fields that come out (`classFields`,
+compared field by field with the real generator by `smp.fields`).  Every element occurrence of the
+documents finds its class; unless that class is mixed, every attribute / child name / text of the
+occurrence has a field, a child that repeats has a list field, no `max_occurs` is below and no
+`min_occurs` above what the occurrence has, and every field the occurrence does not use has a
+default — so the constructor call of the parser cannot miss a required argument and no child is
+an unknown property. -/
+theorem xml_fields_admit_samples (e : SEnv) (docs : List El) :
+    ∃ cs, reduceClasses (docs.flatMap (mapElement e)) = some cs ∧
+      ∀ occ ∈ docs.flatMap (mapElement e), ∃ m ∈ cs, m.qname = occ.qname ∧
+        ∀ fs, classFields cs m = some fs →
+          (∀ a ∈ occ.attrs, ∃ f ∈ fs, f.sameAttr a = true ∧ (1 < a.max → f.isList = true) ∧
+            (∀ k, f.maxOccurs = some k → a.max ≤ k) ∧ (∀ k, f.minOccurs = some k → k ≤ a.min)) ∧
+          (∀ f ∈ fs, (∃ a ∈ occ.attrs, f.sameAttr a = true) ∨ f.hasDefault = true) := by
+  have hn : ∀ c ∈ docs.flatMap (mapElement e), NodupKeys c.attrs := by
+    intro c hc
+    simp only [List.mem_flatMap] at hc
+    obtain ⟨d, _, hcd⟩ := hc
+    exact mapElement_nodup e d c hcd
+  obtain ⟨cs, hcs, hadm⟩ := reduceClasses_admits _ hn
+  refine ⟨cs, hcs, ?_⟩
+  intro occ hocc
+  have := hadm occ hocc
+  simp only [admits] at this
+  cases hf : cs.find? (fun m => m.qname = occ.qname) with
+  | none => simp [hf] at this
+  | some m =>
+    simp only [hf] at this
+    refine ⟨m, List.mem_of_find?_eq_some hf, by simpa using List.find?_some hf, ?_⟩
+    intro fs hfs
+    exact classFields_admit cs m fs hfs occ.attrs this
+
+/-- the interleaved sample `a b a b c`: list fields `a`, `b` sharing sequence 1, a single field `c` -/
+example :
+    let e : SEnv := ⟨{ toEnv := Env.ascii, isAlphaNA := fun _ => false, floatRepr := fun s => s }⟩
+    let leaf (n v : String) : El := .mk n.toList (some v.toList) none [] []
+    let doc : El := .mk "r".toList none none [] [leaf "a" "x", leaf "b" "y", leaf "a" "x", leaf "b" "y", leaf "c" "z"]
+    ((reduceClasses (mapElement e doc)).bind fun cs => (cs.head?.bind (classFields cs)).map fun fs =>
+      fs.map fun f => (f.name, f.isList, f.hasDefault, f.sequence))
+      = some [("a".toList, true, true, some 1), ("b".toList, true, true, some 1), ("c".toList, false, false, none)] := by
+  decide
 
 /-- **filter_types_spec.** The types of a merged attr are never empty, carry no `xs:error`, and a
 placeholder (`anyType` / `anySimpleType`, what an empty or null value is inferred as) survives only
